@@ -98,14 +98,17 @@ structure BW where
   pend : Pend := .idle
   obs : List Action := []         -- observed since the pending input, newest first
   verd : List (Int × Int) := []   -- bp.verdict (partition, code), newest first
+  closedAt : Option Nat := none   -- clock of the first event of this worker after its abandonBrokerConnection
 
 structure World where
   ws : List BW := []
   att : List (Int × Nat) := []        -- partition → worker that took the partition's last syn
   holder : List (Int × Nat) := []     -- token id → worker holding it
-  marks : List (Int × Kind) := []     -- announced markers (partition, kind), oldest first
+  marks : List (Int × Kind × Nat) := []  -- announced markers (partition, kind, clock of the partition producer's previous event), oldest first
   known : List (Int × Kind) := []     -- marker id → kind
   next : Nat := 0
+  clock : Nat := 0                    -- number of events seen
+  lastPP : List (Int × Nat) := []     -- partition → clock of the last event of its partition producer
 
 def assocSet {α : Type} (l : List (Int × α)) (k : Int) (v : α) : List (Int × α) := (k, v) :: l.filter (fun x => x.1 != k)
 def assocDel {α : Type} (l : List (Int × α)) (k : Int) : List (Int × α) := l.filter (fun x => x.1 != k)
@@ -119,11 +122,11 @@ def holderOf (wd : World) (id : Int) : Option BW := (wd.holder.lookup id).bind (
 def norm (as : List Action) : List Action :=
   as.filterMap fun
     | .abandon => none
-    | .expire i p => some (.fail i p)
+    | .expire i p _ => some (.fail i p)
     | a => some a
 
 def actId : Action → Option Int
-  | .refuse i | .requeue i _ _ | .expire i _ | .add i _ | .succ i _ | .fail i _ => some i
+  | .refuse i | .requeue i _ _ _ | .expire i _ _ | .add i _ | .succ i _ | .fail i _ => some i
   | _ => none
 
 def name (w : BW) : String := s!"broker worker {w.broker}#{w.key}"
@@ -139,7 +142,7 @@ def respOf (w : BW) (sent : List Tok) (obs : List Action) : Except String Resp :
   let waitId := w.st.wait.map (·.id)
   let core := obs.filter (fun a => actId a != waitId || waitId.isNone)
   if obs.contains .closing then
-    let leaves := core.filterMap fun | .requeue _ p _ => some p | .fail _ p => some p | _ => none
+    let leaves := core.filterMap fun | .requeue _ p _ _ => some p | .fail _ p => some p | _ => none
     .ok (.connErr (leaves.take sent.length) (leaves.drop sent.length))
   else if verd.isEmpty then
     if core.any (fun | .fail _ _ => true | _ => false) then
@@ -165,12 +168,11 @@ def settle (max : Nat) (final : Bool) (w : BW) : Except String BW :=
       cmp final w r.1 (norm r.2) obs
   | .respList _ => if final then .ok { w with pend := .idle, obs := [] } else .error s!"{name w}: response listing not terminated"
   | .resp =>
-    if final then .ok { w with pend := .idle, obs := [], verd := [] }
-    else match w.st.sets with
+    match w.st.sets with
       | [] => .error s!"{name w}: response without a set in flight"
       | sent :: _ =>
         match respOf w sent obs with
-        | .error m => .error m
+        | .error m => if final then .ok { w with pend := .idle, obs := [], verd := [] } else .error m
         | .ok r =>
           let still := match w.st.wait with
             | some t => !(obs.contains (.add t.id t.part))
@@ -188,7 +190,8 @@ def observe (wd : World) (id : Int) (act : Action) (leave must : Bool) : List (E
   match holderOf wd id with
   | none => if must then [.error s!"broker worker event {repr act} for a token no worker holds"] else [.ok wd]
   | some w =>
-    let wd' := putW wd { w with obs := act :: w.obs }
+    let ca : Option Nat := if w.closedAt.isNone && w.obs.contains .closing then some wd.clock else w.closedAt
+    let wd' := putW wd { w with obs := act :: w.obs, closedAt := ca }
     [.ok (if leave then { wd' with holder := assocDel wd'.holder id } else wd')]
 
 def orErr (l : List (Except String World)) (m : String) : List (Except String World) :=
@@ -197,26 +200,27 @@ def orErr (l : List (Except String World)) (m : String) : List (Except String Wo
 /-- one hook event in one world: every consistent continuation (or an error) -/
 def wstep (max : Nat) (wd : World) (kind : String) (id a b p : Int) : List (Except String World) :=
   match kind with
-  | "wg.add.syn" => [.ok { wd with marks := wd.marks ++ [(a, Kind.syn)] }]
-  | "wg.add.fin" => [.ok { wd with marks := wd.marks ++ [(a, Kind.fin)] }]
+  | "wg.add.syn" => [.ok { wd with marks := wd.marks ++ [(a, Kind.syn, (wd.lastPP.lookup a).getD 0)] }]
+  | "wg.add.fin" => [.ok { wd with marks := wd.marks ++ [(a, Kind.fin, 0)] }]
   | "bp.recv" =>
-    let kd : Except String (Kind × World) :=
-      if id > 0 then .ok (.data, wd)
+    let kd : Except String (Kind × Nat × World) :=
+      if id > 0 then .ok (.data, 0, wd)
       else match wd.known.lookup id with
-        | some k => .ok (k, wd)
+        | some k => .ok (k, 0, wd)
         | none =>
           match wd.marks.find? (fun x => x.1 == p) with
-          | some x => .ok (x.2, { wd with marks := wd.marks.eraseP (fun x => x.1 == p), known := (id, x.2) :: wd.known })
+          | some x => .ok (x.2.1, x.2.2, { wd with marks := wd.marks.eraseP (fun x => x.1 == p), known := (id, x.2.1) :: wd.known })
           | none => .error s!"bp.recv of marker {id} for partition {p} that no partition producer announced"
     match kd with
     | .error m => [.error m]
-    | .ok (k, wd) =>
+    | .ok (k, since, wd) =>
       let tok : Tok := { id := id, part := p, retries := a.toNat, kind := k }
       let deliver (w : BW) (wd : World) : Except String World :=
         match settle max false w with
         | .error m => .error m
         | .ok w' =>
-          let wd := putW wd { w' with pend := .recvTok tok }
+          let ca : Option Nat := if w'.closedAt.isNone && w'.st.closing then some wd.clock else w'.closedAt
+          let wd := putW wd { w' with pend := Pend.recvTok tok, closedAt := ca }
           .ok { wd with holder := assocSet wd.holder id w.key,
                         att := if k == .syn then assocSet wd.att p w.key else wd.att }
       if k == .syn then
@@ -225,7 +229,11 @@ def wstep (max : Nat) (wd : World) (kind : String) (id a b p : Int) : List (Exce
         -- the partition producer took its worker when it announced the syn: any worker of this broker id that
         -- exists by now, or one that this world has not seen yet.  A worker in the initial state (up to
         -- currentRetries, which the syn resets for this partition) behaves like a new one: one representative.
-        let cands := (wd.ws.filter (fun w => w.broker == b)).reverse
+        -- Not a candidate: a worker that had finished abandonBrokerConnection (it was seen acting after its
+        -- bp.closing) before the partition producer's last event preceding the announcement - it was no longer
+        -- registered when the partition producer asked for a worker.
+        let cands := (wd.ws.filter (fun w => w.broker == b &&
+                        !(match w.closedAt with | some j => decide (j < since) | none => false))).reverse
         let used := cands.filter (fun w => !pristine max w)
         let blank := match cands.find? (pristine max) with
           | some l => deliver l wd
@@ -241,7 +249,7 @@ def wstep (max : Nat) (wd : World) (kind : String) (id a b p : Int) : List (Exce
   | "wg.done.syn" => observe wd id (.ackSyn a) true true
   | "bp.bounce" => observe wd id (.refuse id) false true
   | "bp.add" => observe wd id (.add id p) false true
-  | "retry" => observe wd id (.requeue id p a.toNat) true false
+  | "retry" => observe wd id (.requeue id p a.toNat ((b.toNat / 2) % 2 == 1)) true false
   | "ret.err" => observe wd id (.fail id p) true false
   | "ret.succ" => observe wd id (.succ id p) true false
   | "bp.handover" =>
@@ -318,12 +326,23 @@ def firstError (l : List (Except String World)) : String :=
 
 def worldCap : Nat := 64
 
+/-- advance the clock; remember when each partition producer was last seen -/
+def tick (wd : World) (kind : String) (a p : Int) : World :=
+  let pp : Option Int :=
+    if kind == "wg.add.syn" || kind == "wg.add.fin" then some a
+    else if kind == "pp.recv" || kind == "pp.buf" || kind == "pp.fwd" || kind == "pp.fail" || kind == "pp.abandon"
+         || kind == "pp.seq" || kind == "wg.done.fin" then some p
+    else none
+  match pp with
+  | some q => { wd with clock := wd.clock + 1, lastPP := assocSet wd.lastPP q wd.clock }
+  | none => { wd with clock := wd.clock + 1 }
+
 /-- all worlds, one event.  `.ok []` = too many attributions are consistent: the broker workers of this scenario
     are not checked any further (never a rejection). -/
 def bpCheck (max : Nat) (wds : List World) (kind : String) (id a b p : Int) : Except String (List World) :=
   if wds.isEmpty then .ok []
   else
-    let r := wds.flatMap (fun wd => wstep max wd kind id a b p)
+    let r := wds.flatMap (fun wd => (wstep max wd kind id a b p).map (fun x => x.map (fun w => tick w kind a p)))
     match successes r with
     | [] => .error (firstError r)
     | l => if l.length > worldCap then .ok [] else .ok l
